@@ -12,9 +12,9 @@ import sys
 import time
 from pathlib import Path
 
-REPO = "/repo"
+REPO = os.environ.get("SEED_REPO", "/repo")  # where the change is applied for the checks (a scratch worktree while /repo is busy)
 PY = "/venv/bin/python"
-SCR = "/tmp/wtv"
+SCR = os.environ.get("SEED_SCR", "/tmp/wtv")
 
 
 def sh(cmd, **kw):
@@ -25,8 +25,8 @@ def verify(d: str, k: str):
     d = Path(d)
     patch, demo = d / f"patch{k}.diff", d / f"demo{k}.py"
     if not Path(SCR).exists():
-        sh(f"git -C {REPO} worktree add -q --detach {SCR} HEAD")
-    sh(f"git -C {SCR} checkout -q --detach $(git -C {REPO} rev-parse HEAD) && git -C {SCR} checkout -q -- . && git -C {SCR} clean -fdq")
+        sh(f"git -C /repo worktree add -q --detach {SCR} HEAD")
+    sh(f"git -C {SCR} reset -q --hard; git -C {SCR} checkout -q --detach $(git -C /repo rev-parse HEAD) && git -C {SCR} clean -fdq")  # SCR is a scratch worktree
     out = {"patch": str(patch)}
     env = f"cd {SCR} && PYTHONPATH={SCR}"
     r0 = sh(f"{env} {PY} {demo}", timeout=600)
@@ -36,6 +36,7 @@ def verify(d: str, k: str):
         a = sh(f"git -C {SCR} apply --3way {patch} && git -C {SCR} reset -q")
     out["applies"] = a.returncode == 0
     if not out["applies"]:
+        sh(f"git -C {SCR} reset -q --hard")
         out["apply_err"] = a.stderr[-300:]
         print(json.dumps(out, indent=1))
         return out
@@ -44,7 +45,7 @@ def verify(d: str, k: str):
     r1 = sh(f"{env} {PY} {demo}", timeout=600)
     out["demo_changed_rc"] = r1.returncode
     out["demo_changed_msg"] = (r1.stdout + r1.stderr)[-300:]
-    sh(f"git -C {SCR} checkout -q -- . && git -C {SCR} clean -fdq")
+    sh(f"git -C {SCR} reset -q --hard && git -C {SCR} clean -fdq")
     out["ok"] = out["demo_unchanged_rc"] == 0 and out["demo_changed_rc"] != 0 and "316 passed" in out["tests"] and "failed" not in out["tests"]
     print(json.dumps(out, indent=1))
     return out
@@ -65,7 +66,7 @@ def run(patch: str, checks):
     try:
         for c in checks:
             t0 = time.time()
-            r = sh(f"cd {os.environ.get('VERIF_DIR', '/verif')} && ./check {c} --tier quick", timeout=1800)
+            r = sh(f"cd {os.environ.get('VERIF_DIR', '/verif')} && VERIF_REPO={REPO} ./check {c} --tier quick", timeout=1800)
             lines = [l for l in r.stdout.splitlines() if l.startswith(("VIOLATION", "  why", "HELD", "INCONCLUSIVE"))]
             res[c] = {"rc": r.returncode, "wall_s": round(time.time() - t0, 1), "first": lines[:2]}
             print(c, r.returncode, round(time.time() - t0, 1), (lines[1] if len(lines) > 1 else (lines[0] if lines else ""))[:400])
